@@ -188,9 +188,14 @@ def oracle_c16(r, rng, budget, all_steps=False):
                 wage_pair(moved, cents(mvv.get('1040.24', 0.0)), cents(mvv['nc_d-400.19']) if 'nc_d-400.19' in mvv else None,
                           100, f'at AGI {T - 50}: ')
         # federal income tax withheld on EVERY copy of every payer form (W-2 box 2, 1099 box 4)
-        for form, box in (('w-2', 'box_2'), ('1099-int', 'box_4'), ('1099-div', 'box_4'), ('1099-r', 'box_4')):
-            for n in range(count_of(inputs, form)):
-                key = f'{form}:{n}.{box}'
+        # (Form 1099-G box 4 included: tax withheld from unemployment compensation is Form 1040 line 25b too), and the
+        # two amounts the return asks for directly: other federal withholding (line 25c) and estimated payments (line 26)
+        wh_keys = [f'{form}:{n}.{box}' for form, box in (('w-2', 'box_2'), ('1099-int', 'box_4'), ('1099-div', 'box_4'), ('1099-r', 'box_4'),
+                                                        ('1099-g', 'box_4')) for n in range(count_of(inputs, form))]
+        wh_keys += ['1040.other_federal_withholding', '1040.estimated_tax_payments']
+        for key in wh_keys:
+            form, box = key.split(':')[0].split('.')[0], key.split('.')[1]
+            if True:
                 if key == 'w-2:0.box_2' or key not in inputs:
                     continue
                 delta = rng.choice([1, 99.99, 500])
